@@ -593,7 +593,9 @@ class HierarchicalAsyncMachine(HierarchicalMachine, AsyncMachine):
         ordered_states = resolve_order(state_tree)
         for state_path in ordered_states:
             with self():
-                return await self._can_trigger_nested(model, trigger, state_path, *args, **kwargs)
+                if await self._can_trigger_nested(model, trigger, state_path, *args, **kwargs):
+                    return True
+        return False
 
     async def _can_trigger_nested(self, model, trigger, path, *args, **kwargs):
         if trigger in self.events:
